@@ -9,6 +9,7 @@ import (
 	"math/rand"
 	"os"
 	"path/filepath"
+	"sort"
 	"strings"
 
 	simwallet "perun.network/go-perun/backend/sim/wallet"
@@ -21,17 +22,17 @@ import (
 // ---------- a channel context: keys, params, app ----------
 
 type Ctx struct {
-	G       *cv.Gen
-	N       int
-	Me      int
-	Accs    []*simwallet.Account
-	Foreign *simwallet.Account
-	Params  *channel.Params
-	Kind    string // "none", "pay", "mock"
-	sigs    map[string]string // signature bytes -> token term
-	sts     []string          // state table (Coq terms)
-	stIdx   map[string]int
-	Assets  []channel.Asset
+	G        *cv.Gen
+	N        int
+	Me       int
+	Accs     []*simwallet.Account
+	Foreign  *simwallet.Account
+	Params   *channel.Params
+	Kind     string            // "none", "pay", "mock"
+	sigs     map[string]string // signature bytes -> token term
+	sts      []string          // state table (Coq terms)
+	stIdx    map[string]int
+	Assets   []channel.Asset
 	restores int
 }
 
@@ -1015,6 +1016,78 @@ func (r *runner) acting(n, me int, kind string, perFile int) (transitions int) {
 	return
 }
 
+// replays runs scripted histories in which a signature that was valid for ONE state of a version is
+// offered again after ANOTHER state of the same version has been staged: after a successful CheckUpdate,
+// after a discarded update, after a replaced (forced) staging.  Whatever the machine remembered about
+// the first signature must not let it pass for the second state.
+func (r *runner) replays(n, me int, kind string, perFile int) {
+	c := NewCtx(r.g, n, me, kind)
+	var cases []string
+	cur0 := c.signedTx(c.Base(3, false), 1<<uint(n)-1)
+	cands := c.Candidates(cur0.State)
+	a, b := cands[0], cands[1] // valid, valid-final: same version, different states
+	b2 := candidate{}
+	for _, cd := range cands {
+		if cd.name == "lock-funds" || cd.name == "locked-released" {
+			b2 = cd
+		}
+	}
+	peer := (me + 1) % n
+	others := func(st *channel.State) (ops []Op) {
+		for i := 0; i < n; i++ {
+			if i != me && i != peer {
+				ops = append(ops, Op{Kind: "AddSig", Idx: i, Sig: c.Sign(i, st), Class: "valid"})
+			}
+		}
+		return
+	}
+	sigA := c.Sign(peer, a.s)
+	scripts := map[string][]Op{
+		"after-checkupdate": append(append([]Op{
+			{Kind: "CheckUpdate", S: a.s, Actor: a.actor, Sig: sigA, Idx: peer, Class: "valid"},
+			{Kind: "Update", S: b.s, Actor: b.actor, Class: "other-state-same-version"},
+			{Kind: "AddSig", Idx: peer, Sig: sigA, Class: "replayed-checkupdate"},
+			{Kind: "Sig", Class: "-"}}, others(b.s)...),
+			Op{Kind: "EnableFinal", Class: "-"}, Op{Kind: "EnableUpdate", Class: "-"}),
+		"after-discard": append(append([]Op{
+			{Kind: "Update", S: a.s, Actor: a.actor, Class: "valid"},
+			{Kind: "AddSig", Idx: peer, Sig: sigA, Class: "valid"},
+			{Kind: "Discard", Class: "-"},
+			{Kind: "Update", S: b.s, Actor: b.actor, Class: "other-state-same-version"},
+			{Kind: "AddSig", Idx: peer, Sig: sigA, Class: "replayed-discarded"},
+			{Kind: "Sig", Class: "-"}}, others(b.s)...),
+			Op{Kind: "EnableFinal", Class: "-"}, Op{Kind: "EnableUpdate", Class: "-"}),
+		"after-force": append(append([]Op{
+			{Kind: "Update", S: a.s, Actor: a.actor, Class: "valid"},
+			{Kind: "AddSig", Idx: peer, Sig: sigA, Class: "valid"},
+			{Kind: "ForceUpdate", S: b.s, Actor: b.actor, Class: "other-state-same-version"},
+			{Kind: "AddSig", Idx: peer, Sig: sigA, Class: "replayed-forced"},
+			{Kind: "Sig", Class: "-"}}, others(b.s)...),
+			Op{Kind: "EnableFinal", Class: "-"}, Op{Kind: "EnableUpdate", Class: "-"}),
+	}
+	if b2.s != nil {
+		scripts["after-checkupdate-2"] = append(append([]Op{
+			{Kind: "CheckUpdate", S: a.s, Actor: a.actor, Sig: sigA, Idx: peer, Class: "valid"},
+			{Kind: "CheckUpdate", S: b2.s, Actor: b2.actor, Sig: c.Sign(peer, b2.s), Idx: peer, Class: "valid"},
+			{Kind: "Update", S: b2.s, Actor: b2.actor, Class: "other-state-same-version"},
+			{Kind: "AddSig", Idx: peer, Sig: sigA, Class: "replayed-checkupdate"},
+			{Kind: "AddSig", Idx: peer, Sig: c.Sign(peer, b2.s), Class: "valid"},
+			{Kind: "Sig", Class: "-"}}, others(b2.s)...),
+			Op{Kind: "EnableUpdate", Class: "-"})
+	}
+	names := make([]string, 0, len(scripts))
+	for k := range scripts {
+		names = append(names, k)
+	}
+	sort.Strings(names)
+	for _, name := range names {
+		m := c.restore(channel.Acting, channel.Transaction{}, cur0.Clone())
+		init := snap(m)
+		cases = append(cases, r.execCase(c, m, init, scripts[name], fmt.Sprintf("T1r/%s/n%d/%s", name, n, kind), false))
+	}
+	r.w.write(c, cases)
+}
+
 func (r *runner) exhaustive(n, me int, kind string, perFile int) (states, transitions int) {
 	phases := []channel.Phase{channel.InitActing, channel.InitSigning, channel.Funding, channel.Acting, channel.Signing, channel.Final,
 		channel.Registering, channel.Registered, channel.Progressing, channel.Progressed, channel.Withdrawing, channel.Withdrawn}
@@ -1240,6 +1313,9 @@ func Run(prop string) func(seed int64, tier, out string) {
 		case prop == "C09" && tier == "quick":
 			s, t := r.exhaustive(2, 0, "none", perFile)
 			states, transitions = s, t
+			for _, kind := range []string{"none", "pay", "mock"} {
+				r.replays(2, r.g.R.Intn(2), kind, perFile)
+			}
 			r.sequences(100, 40, 25)
 		case prop == "C09":
 			for _, cfg := range []struct {
@@ -1255,12 +1331,15 @@ func Run(prop string) func(seed int64, tier, out string) {
 			for _, kind := range []string{"none", "pay", "mock"} {
 				r.acting(2, r.g.R.Intn(2), kind, perFile)
 				r.acting(3, r.g.R.Intn(3), kind, perFile)
+				r.replays(2, r.g.R.Intn(2), kind, perFile)
+				r.replays(3, r.g.R.Intn(3), kind, perFile)
 			}
 			r.sequences(400, 60, 25)
 		default:
 			for _, kind := range []string{"none", "pay", "mock"} {
 				for n := 2; n <= 4; n++ {
 					r.acting(n, r.g.R.Intn(n), kind, perFile)
+					r.replays(n, r.g.R.Intn(n), kind, perFile)
 				}
 			}
 			s, t := r.exhaustive(2, 1, "pay", perFile)
